@@ -14,7 +14,7 @@ BUDGET = {"quick": {"cases": 6000}, "thorough": {"cases": 100000, "soft_deadline
 RULE = (
     "case = (network n<=6 [7], >=50% motif-avoidant cores composed with bistable components; 0-4 expansion calls of any strategy "
     "with size limits; then a generated mix of skip_to_minimal on stubs, expand_minimal_spaces(skip_ignored=True[, size]) and "
-    "skip_remaining; then node_attractor_seeds(compute=True) for all node ids in a generated order); oracle = brute-force "
+    "skip_remaining; then node_attractor_seeds(compute=True) for all node ids in a generated order, in a third of the cases with symbolic_fallback=True under a configuration that makes the candidate search fail); oracle = brute-force "
     "attractors: every attractor contains >=1 reported seed, every seed lies in an attractor inside its node's space, and if the "
     "network has no motif-avoidant attractor and no stub remains every attractor is hit exactly once; non-trivial = >=2 skip nodes "
     "with intersecting spaces, or a motif-avoidant attractor inside a skip node"
@@ -32,6 +32,10 @@ def _case(draw, max_n):
         "pre": draw(ops.steps(PRE, n, 0, 4)),
         "steps": draw(ops.steps(SKIPS, n, 1, 4)),
         "order": draw(st.sampled_from(("id", "rev", "rot"))),
+        # how the seeds are asked for: default, or with the symbolic fallback under a configuration that makes the
+        # candidate search fail
+        "fallback": draw(st.sampled_from((False, False, True))),
+        "force": draw(st.sampled_from(({}, {"retained_set_optimization_threshold": 1, "attractor_candidates_limit": 1}, {"retained_set_optimization_threshold": 2, "attractor_candidates_limit": 2}))),
     }
 
 
@@ -40,7 +44,7 @@ def strategy(tier):
 
 
 def describe(case):
-    return f"{bnet_text(case['net'])} | pre: {ops.fmt_steps(case['pre'])} | skips: {ops.fmt_steps(case['steps'])} | seeds order={case['order']}"
+    return f"{bnet_text(case['net'])} | pre: {ops.fmt_steps(case['pre'])} | skips: {ops.fmt_steps(case['steps'])} | seeds order={case['order']} fallback={case.get('fallback')} force={case.get('force')}"
 
 
 def _trig_f5(case, detail):
@@ -62,6 +66,7 @@ def run_case(case) -> Result:
     att = net.attractors()
     has_maa = any(net.is_maa(a) for a in att)
     try:
+        force = case.get("force") or {}
         h = ops.History(net)
         for s in case["pre"]:
             out = h.apply(s)
@@ -78,11 +83,24 @@ def run_case(case) -> Result:
             if out.kind != "ok":
                 res.violate(f"unexpected-RuntimeError:{s['op']}", error=str(out.exc))
                 return res
-        out = h.apply({"op": "allseeds", "order": case["order"]})
-        if out.kind != "ok":
-            res.violate("unexpected-RuntimeError:seeds", error=str(out.exc))
-            return res
-        seeds = out.ret
+        if case.get("fallback"):
+            from ..bb import call
+
+            for k_, v_ in force.items():
+                h.sd.config[k_] = v_
+            ids = list(h.sd.node_ids())
+            if case["order"] == "rev":
+                ids.reverse()
+            elif case["order"] == "rot" and ids:
+                ids = ids[len(ids) // 2 :] + ids[: len(ids) // 2]
+            seeds = {i: call(h.sd.node_attractor_seeds, i, compute=True, symbolic_fallback=True) for i in ids}
+            res.label("symbolic-fallback")
+        else:
+            out = h.apply({"op": "allseeds", "order": case["order"]})
+            if out.kind != "ok":
+                res.violate("unexpected-RuntimeError:seeds", error=str(out.exc))
+                return res
+            seeds = out.ret
     except Nonterminating:
         res.excluded = "nonterminating"
         return res
